@@ -1,9 +1,12 @@
 package c09
 
 import (
+	"expvar"
+
 	"context"
 	"errors"
 	"fmt"
+	"github.com/cosi-project/runtime/pkg/controller/runtime/metrics"
 	"sync"
 	"testing"
 	"testing/synctest"
@@ -49,6 +52,30 @@ type BLine struct {
 	O   string `json:"o"`
 	D   int    `json:"d"`
 	B   int    `json:"b"`
+	// M: the runtime's own accounting of the controller over the behaviour (deltas of the exported metrics)
+	M *Metrics `json:"m,omitempty"`
+}
+
+type Metrics struct {
+	Processed int `json:"processed"`
+	Crashes   int `json:"crashes"`
+	Skips     int `json:"skips"`
+	Requeues  int `json:"requeues"`
+}
+
+func metricsOf(name string) Metrics {
+	get := func(m *expvar.Map) int {
+		if v, ok := m.Get(name).(*expvar.Int); ok {
+			return int(v.Value())
+		}
+
+		return 0
+	}
+
+	return Metrics{
+		Processed: get(metrics.QControllerProcessed), Crashes: get(metrics.QControllerCrashes),
+		Skips: get(metrics.QControllerSkips), Requeues: get(metrics.QControllerRequeues),
+	}
 }
 
 // outcomeError turns an abstract outcome into what Reconcile returns (or panics).
@@ -84,6 +111,8 @@ func runBackoff(t *testing.T, tr *vh.Trace, tid string, beh BBeh, concurrency ui
 		}
 
 		emit(BLine{Ev: "reset"})
+
+		m0 := metricsOf("probe")
 
 		next, nextB := 0, 0
 
@@ -199,8 +228,12 @@ func runBackoff(t *testing.T, tr *vh.Trace, tid string, beh BBeh, concurrency ui
 		time.Sleep(10 * time.Minute)
 		synctest.Wait()
 
+		m1 := metricsOf("probe")
+
 		mu.Lock()
-		emit(BLine{Ev: "end", T: now()})
+		emit(BLine{Ev: "end", T: now(), M: &Metrics{
+			Processed: m1.Processed - m0.Processed, Crashes: m1.Crashes - m0.Crashes, Skips: m1.Skips - m0.Skips, Requeues: m1.Requeues - m0.Requeues,
+		}})
 		mu.Unlock()
 
 		cancel()
